@@ -41,7 +41,8 @@ fn rule_block(i: usize, b: &VBlock) -> RuleBlock {
     let v = b.violating;
     let lines: Vec<&str> = match VALIDATORS[b.validator] {
         "affects" => {
-            attrs.push(a("affects", &if v { format!(":nosuch{i}") } else { ":tgt".to_string() }));
+            // satisfied links point at the same file's `tgt` or at a file that holds nothing but a named block
+            attrs.push(a("affects", &if v { format!(":nosuch{i}") } else if i % 2 == 1 { "names_only.sh:xt".to_string() } else { ":tgt".to_string() }));
             vec!["a"]
         }
         "keep-sorted" => {
@@ -108,6 +109,9 @@ pub fn check(case: &FlagCase, probe: &Probe) -> Verdict {
         sb.write(&format!("f{f}.sh"), r.text.as_bytes());
         texts.push(format!("--- f{f}.sh ---\n{}", r.text));
     }
+    let names_only = render_batch(Host::Sh, &[RuleBlock { attrs: vec![a("name", "xt")], lines: vec!["t".into()], indent: 0 }]);
+    sb.write("names_only.sh", names_only.text.as_bytes());
+    texts.push(format!("--- names_only.sh ---\n{}", names_only.text));
     sb.git_ok(&["add", "-A"]);
     let diff = sb.git_diff(&["--cached"]);
     let fake = FakeAi::start(|_, req| {
@@ -259,7 +263,7 @@ pub fn case_strategy(all_subsets: bool) -> BoxedStrategy<FlagCase> {
 }
 
 pub fn run(run: &mut Run) {
-    run.rule = "random trees: 1..13 single-validator blocks (each of the seven validators violating or satisfied, error or warning severity) spread over 1..3 files in random order, all touched by a new-file git diff so affects is live, check-ai answered by a recording fake endpoint, check-lua by echo/nil scripts; per tree the unrestricted run is compared with construction and then every chosen subset S is run as -d S and as -e S (quick: all singletons, all co-singletons, the full set and 6 random subsets; thorough: all 127 non-empty subsets) in varying flag spellings (short, long=, mixed, repeated, reversed), plus 6 rejected usages. Non-trivial tree = some validator owns exactly one block and at least three validators report.".into();
+    run.rule = "random trees: 1..13 single-validator blocks (each of the seven validators violating or satisfied, error or warning severity) spread over 1..3 files in random order, all touched by a new-file git diff so affects is live (satisfied links point at the same file or at a file holding nothing but a named block), check-ai answered by a recording fake endpoint, check-lua by echo/nil scripts; per tree the unrestricted run is compared with construction and then every chosen subset S is run as -d S and as -e S (quick: all singletons, all co-singletons, the full set and 6 random subsets; thorough: all 127 non-empty subsets) in varying flag spellings (short, long=, mixed, repeated, reversed), plus 6 rejected usages. Non-trivial tree = some validator owns exactly one block and at least three validators report.".into();
     run.assumptions = vec!["hash-map iteration order inside blockwatch decides which block is visited last; it is sampled by repetition, not controlled".into()];
     let thorough = run.tier == crate::engine::Tier::Thorough;
     run.shrink_iters = 40;
